@@ -328,10 +328,28 @@ func checkBits(a, b int64) string {
 	}
 	want := []int64{a & b, a | b, a ^ b, ^a, ^b, a}
 	names := []string{"&", "|", "^", "~a", "~b", "~~a"}
-	for style := 0; style < 5; style++ {
-		al, bl := spell(a, style), spell(b, (style+2)%5)
+	// the same integers as Go data values of the kinds a caller would use: int64, int, and float64 where the
+	// integer is exactly representable (|v| <= 2^53)
+	data := map[string]interface{}{"ia": a, "ib": b, "na": int(a), "nb": int(b)}
+	exact := func(v int64) bool { return v >= -(1<<53) && v <= 1<<53 }
+	for style := 0; style < 8; style++ {
+		al, bl := spell(a, style%5), spell(b, (style+2)%5)
+		switch style {
+		case 5:
+			al, bl = "ia", "ib"
+		case 6:
+			al, bl = "na", spell(b, 0)
+			if exact(b) {
+				data["fb"], bl = float64(b), "fb"
+			}
+		case 7:
+			if !exact(a) {
+				continue
+			}
+			data["fa"], al, bl = float64(a), "fa", "ib"
+		}
 		f := fmt.Sprintf("[%s & %s, %s | %s, %s ^ %s, ~%s, ~%s, ~~%s]", al, bl, al, bl, al, bl, al, bl, al)
-		arr, msg := evalArr(f, nil)
+		arr, msg := evalArr(f, data)
 		if msg != "" {
 			return msg
 		}
@@ -523,7 +541,7 @@ func TestC18MaxMin(t *testing.T) {
 
 // TestC18Bits: & | ^ ~ on integers below 2^53 in magnitude.
 func TestC18Bits(t *testing.T) {
-	run := h.Begin("C18", "bits", "grid + rapid: all pairs over {0, +-1, +-2, +-3, 5, 255, -256, 2^31, 2^32+-1, +-(2^53-1), ...} and random pairs |v|<2^53 (negatives, powers of two +-1); each operand in five spellings of the same integer value (plain, x*1.0, x.0, x+0.00 or (x/100)*1e2, x*100/100); oracle: Go int64 & | ^ and ~a == -a-1 (two's complement); non-trivial: a negative operand; distinct by pair")
+	run := h.Begin("C18", "bits", "grid + rapid: all pairs over {0, +-1, +-2, +-3, 5, 255, -256, 2^31, 2^32+-1, +-(2^53-1), ...} and random pairs |v|<2^53 (negatives, powers of two +-1); each operand in five spellings of the same integer value (plain, x*1.0, x.0, x+0.00 or (x/100)*1e2, x*100/100) and as Go data of kind int64, int and float64; oracle: Go int64 & | ^ and ~a == -a-1 (two's complement); non-trivial: a negative operand; distinct by pair")
 	defer run.End(t)
 	grid := []int64{0, 1, -1, 2, -2, 3, -3, 5, 6, 255, -256, 1 << 31, 1<<32 - 1, 1<<32 + 1, -(1 << 32), 1<<53 - 1, -(1<<53 - 1), 1 << 52, 0x5555555555555, 0xAAAAAAAAAAAAA}
 	var idx int64
